@@ -265,18 +265,21 @@ def _is_flag(c: Term, pname: str) -> bool:
 
 
 def derivation_scenarios(prog, chk, pid, tier):
-    """derive_auth_blocks_from_config on enumerated configurations (constant values folded through the repository code by the
-    interpreter in concrete-control mode): which blocks result, and which version the update block announces"""
+    """derive_auth_blocks_from_config on enumerated configurations: which naming values / security code are present is enumerated,
+    the security code, the two version values and the numeric naming values are symbolic byte strings; interpreted in
+    concrete-control mode, each configuration derived twice"""
     import itertools
 
+    from bfsa.exprs import sbytes
     from rules import stackrt as R
 
     P = lambda s: "%s.%s" % (pid, s)
     stk = R.Stack(prog)
     fi = prog.method(BEC2 + ".Bec2File", "derive_auth_blocks_from_config")
     feats = ["code", "customer", "project", "prj_version", "prj_name", "dev_version", "dev_name"]
-    enc = {"code": "(0x0202, 0x82): b'SECRET01'", "customer": "(0x620, 0x01): b'\\x27\\xfa'", "project": "(0x620, 0x05): b'\\x00\\x11'", "prj_version": "(0x620, 0x07): b'\\x09'",
-           "prj_name": "(0x620, 0x06): b'Prj'", "dev_version": "(0x620, 0x04): b'\\x04'", "dev_name": "(0x620, 0x03): b'Dev'"}
+    key = {"code": "(0x0202, 0x82)", "customer": "(0x620, 0x01)", "project": "(0x620, 0x05)", "prj_version": "(0x620, 0x07)", "prj_name": "(0x620, 0x06)", "dev_version": "(0x620, 0x04)", "dev_name": "(0x620, 0x03)"}
+    symv = {"code": R.syms("sc", 8), "customer": R.syms("cu", 2), "project": R.syms("pr", 2), "prj_version": R.syms("pv", 1), "dev_version": R.syms("dv", 1)}
+    num = lambda bs: mk("call", mk("builtin", "int.from_bytes"), (sbytes(bs), C("big")), (), 0)
     bad = None
     n = 0
     for r in range(len(feats) + 1):
@@ -285,27 +288,41 @@ def derivation_scenarios(prog, chk, pid, tier):
                 if cust and tier != "thorough" and len(subset) not in (0, 3, 7):
                     continue
                 n += 1
-                cfg = "{" + ", ".join(enc[f] for f in subset) + "}"
-                src = ("def drv(Bf3FileC):\n    f = Bec2File(Bf3FileC(), [], b'0123456789abcdef')\n    f.derive_auth_blocks_from_config(%s, %s)\n    f.derive_auth_blocks_from_config(%s, %s)\n"
-                       "    return [(k, b.tag, getattr(b, 'version', None), getattr(b, 'config_security_code', None)) for k, b in f.auth_blocks.items()]\n") % (cfg, cust, cfg, cust)
-                ex, res = stk.run(BEC2, src, {"Bf3FileC": mk("class", "bec2format.bf3file.Bf3File")})
+                args = {f: sbytes(symv[f]) for f in subset if f in symv}
+                cfg = "{" + ", ".join("%s: %s" % (key[f], f if f in symv else ("b'Prj'" if f == "prj_name" else "b'Dev'")) for f in subset) + "}"
+                src = ("def drv(Bf3FileC%s):\n    f = Bec2File(Bf3FileC(), [], b'0123456789abcdef')\n    f.derive_auth_blocks_from_config(%s, %s)\n    f.derive_auth_blocks_from_config(%s, %s)\n"
+                       "    return [(k, b.tag, getattr(b, 'version', None), getattr(b, 'config_security_code', None)) for k, b in f.auth_blocks.items()]\n") % ("".join(", " + a for a in sorted(args)), cfg, cust, cfg, cust)
+                ex, res = stk.run(BEC2, src, dict(args, Bf3FileC=mk("class", "bec2format.bf3file.Bf3File")))
                 has = lambda f: f in subset
                 prj_ok = has("prj_version") and ((has("customer") and has("project")) or has("prj_name"))
                 dev_ok = has("dev_version") and (has("customer") or has("dev_name"))
-                want = [(1, 1, None, None)] if cust else [(3, 3, None, None)]
-                if has("code") and (prj_ok or dev_ok):
-                    want.append((2, 2, 9 if prj_ok else 4, b"SECRET01"))
+                first = 1 if cust else 3
+                want_update = has("code") and (prj_ok or dev_ok)
+                why = None
                 if res.dead or res.ret is None:
-                    got = "raises"
+                    why = "raises %s" % (ex._dead[1] if ex._dead else "?")
                 else:
-                    items = ex.iter_items(res.ret, res.state)
-                    got = []
-                    for it in items or []:
-                        parts = ex.unpack_to(it, 4, res.state, None)
-                        got.append(tuple(cval(x) if is_const(x) else show(x, 3) for x in parts))
-                if got != want and bad is None:
-                    bad = ("%s, cust_key_support=%s" % (sorted(subset), cust), "blocks (key, tag, version, code) are %s, expected %s" % (got, want))
-    chk.require(bad is None, P("derivation-scenarios"), fi.qualname, "%d configurations x initial-block kind, each derived twice" % n, "%s:%d" % (fi.file, fi.lineno),
+                    items = ex.iter_items(res.ret, res.state) or []
+                    rows = [ex.unpack_to(it, 4, res.state, None) for it in items]
+                    if len(rows) != (2 if want_update else 1):
+                        why = "%d block(s), expected %d" % (len(rows), 2 if want_update else 1)
+                    else:
+                        k0, t0, v0, c0 = rows[0]
+                        if not (is_const(k0) and cval(k0) == first and is_const(t0) and cval(t0) == first):
+                            why = "initial block has tag %s" % show(t0, 2)
+                        if want_update and not why:
+                            k1, t1, v1, c1 = rows[1]
+                            wv = num(symv["prj_version"] if prj_ok else symv["dev_version"])
+                            cb = R.flat(ex, res, c1)
+                            if not (is_const(t1) and cval(t1) == 2 and is_const(k1) and cval(k1) == 2):
+                                why = "second block is not the update block"
+                            elif unsnap(v1) is not wv:
+                                why = "update block announces version %s, expected the %s-settings version %s" % (show(v1, 4)[:60], "project" if prj_ok else "device", show(wv, 4)[:60])
+                            elif cb is None or len(cb) != 8 or any(a is not b for a, b in zip(cb, symv["code"])):
+                                why = "update block does not carry the configuration's security code"
+                if why and bad is None:
+                    bad = ("%s, cust_key_support=%s" % (sorted(subset), cust), why)
+    chk.require(bad is None, P("derivation-scenarios"), fi.qualname, "%d configurations x initial-block kind, each derived twice, symbolic code / versions" % n, "%s:%d" % (fi.file, fi.lineno),
                 "exactly the requested initial block, plus an update block with the security code and the version of the project-settings identifier (the device-settings identifier only when no project-settings identifier exists) exactly when code and identifier exist; deriving twice changes nothing",
                 "configuration %s: %s" % bad if bad else "")
 
